@@ -69,9 +69,8 @@ def takeLim (limit : Nat) (l : List Pub) : List Pub := if limit = 0 then l else 
 def RStream.getFwd (s : RStream) (so : Nat) (limit : Nat) : List Pub :=
   if so ≥ (s.top + 1) % U64 then []
   else
-    match s.items.dropWhile (fun p => p.offset != so) with
-    | [] => takeLim limit s.items           -- offset not in the index: start from Front
-    | l => takeLim limit l
+    let l := s.items.dropWhile (fun p => p.offset != so)   -- `index[so]` and everything after it
+    takeLim limit (if l.isEmpty then s.items else l)        -- offset not in the index: start from Front
 
 /-- `Stream.Get(0, false, limit, true)`: newest first. -/
 def RStream.getRev (s : RStream) (limit : Nat) : List Pub := takeLim limit s.items.reverse
@@ -95,16 +94,17 @@ def toM (pass : Pub → Bool) (p : Pub) : MPub := ⟨p.offset, !pass p, p.id⟩
 /-- `pubToProto` of a publication that is delivered as is (cache recovery never marks). -/
 def toPlain (p : Pub) : MPub := ⟨p.offset, false, p.id⟩
 
+/-- the `recovered` flag computed by `isStreamRecovered` from the returned publications -/
+def recFlag (pubs : List Pub) (top off : Nat) : Bool :=
+  match pubs, pubs.getLast? with
+  | p :: _, some q => p.offset == (off + 1) % U64 && q.offset == top
+  | _, _ => top == off
+
 /-- `isStreamRecovered`; `none` = `(nil, false)`. -/
 def isStreamRecovered (pubs : List Pub) (top epoch off ep : Nat) (pass : Pub → Bool) :
     Option (List MPub) :=
   if ep ≠ 0 ∧ epoch ≠ ep then none
-  else
-    let recovered : Bool :=
-      match pubs, pubs.getLast? with
-      | p :: _, some q => p.offset == (off + 1) % U64 && q.offset == top
-      | _, _ => top == off
-    if recovered then some (pubs.map (toM pass)) else none
+  else if recFlag pubs top off then some (pubs.map (toM pass)) else none
 
 inductive Outcome
   /-- error reply `ErrorUnrecoverablePosition` (112) -/
@@ -117,6 +117,14 @@ inductive Outcome
   position stored in the channel context, `WasRecovering` -/
   | reply (recovered : Bool) (pubs : List MPub) (offset epoch pos : Nat) (was : Bool)
 deriving Repr, DecidableEq
+
+def Outcome.recovered : Outcome → Bool
+  | .reply r _ _ _ _ _ => r
+  | _ => false
+
+def Outcome.pubs : Outcome → List MPub
+  | .reply _ p _ _ _ _ => p
+  | _ => []
 
 /-- The tail of `subscribeCmd` after the recovery decision: merge with buffered publications,
 cache-mode trimming, offset bookkeeping. -/
